@@ -20,7 +20,7 @@ import (
 func init() { register("C11", "exploration", runC11) }
 
 func runC11(r *ev.Run) {
-	r.SetRule("a gluon server runs in a child process with no panic handler (a panic kills it, as in production). Hostile connections (before LOGIN, logged in, with a mailbox selected) send: grammar-generated valid commands, byte-level mutations of them (flips, cuts, inserted parens/braces/quotes/NUL/8-bit, huge numbers), hand-written extremes (10^4-fold nesting, 2^32 and 2^64 numbers in sets, partials and literal sizes, 1 MiB atoms, thousands of empty lines, tag-only lines), literals that are announced and then cut off by a disconnect, and batches of pipelined lines. The client follows the protocol for literals (waits for '+'). Oracles: the child stays alive; every line that was completely sent gets exactly one completion (tagged with its tag when the tag is a plain atom, else '* BAD'), checked with a NOOP probe behind it; the connection then still answers NOOP unless the server said BYE after repeated errors; a sentinel session of another user keeps getting the same FETCH answer; after all hostile connections are gone the goroutine count returns to the start level, RSS stays under 700 MiB and the idle server burns < 1 s CPU in 3 s. distinct = distinct (state, input family, outcome) triples")
+	r.SetRule("a gluon server runs in a child process with no panic handler (a panic kills it, as in production). Hostile connections (before LOGIN, logged in, with a mailbox selected) send: grammar-generated valid commands, byte-level mutations of them (flips, cuts, inserted parens/braces/quotes/NUL/8-bit, huge numbers), numbers at the edges of int32/uint32/int64/uint64 in every numeric position, lines sent behind a LOGOUT or behind the 20th consecutive error, hand-written extremes (10^4-fold nesting, 2^32 and 2^64 numbers in sets, partials and literal sizes, 1 MiB atoms, thousands of empty lines, tag-only lines), literals that are announced and then cut off by a disconnect, and batches of pipelined lines. The client follows the protocol for literals (waits for '+'). Oracles: the child stays alive; every line that was completely sent gets exactly one completion (tagged with its tag when the tag is a plain atom, else '* BAD'), checked with a NOOP probe behind it; the connection then still answers NOOP unless the server said BYE after repeated errors; a sentinel session of another user keeps getting the same FETCH answer; after all hostile connections are gone the goroutine count returns to the start level, RSS stays under 700 MiB and the idle server burns < 1 s CPU in 3 s. distinct = distinct (state, input family, outcome) triples")
 	r.Assume("lines carry no CR/LF except their terminator and inside literals; 'hang' means no completion within a 60 s watchdog and is reported as inconclusive unless the child is burning CPU or a second try on a fresh connection hangs too")
 
 	conns := r.Pick(400, 6000)
@@ -311,6 +311,9 @@ var c11Extremes = []func(tag string) string{
 	func(t string) string { return t + " UID " + strings.Repeat("UID ", 10000) + "FETCH 1 FLAGS" },
 }
 
+// numbers at the edges of the integer types a parser may use
+var c11EdgeNumbers = []string{"0", "1", "2147483647", "2147483648", "4294967295", "4294967296", "4294967297", "9223372036854775806", "9223372036854775807", "9223372036854775808", "9223372036854775809", "18446744073709551615", "18446744073709551616", "99999999999999999999"}
+
 func (c *c11Case) nextTag() string {
 	c.n++
 	return fmt.Sprintf("h%d", c.n)
@@ -383,6 +386,38 @@ func (c *c11Case) genItem() c11Item {
 		}
 
 		return c11Item{family: "mutated " + name, tag: t, data: append(line, '\r', '\n'), lines: 1}
+	case k < 66: // numbers at type edges in every numeric position
+		n1, n2 := c11EdgeNumbers[rng.Intn(len(c11EdgeNumbers))], c11EdgeNumbers[rng.Intn(len(c11EdgeNumbers))]
+		forms := []string{
+			"FETCH 1 (BODY.PEEK[]<%s.%s>)", "UID FETCH 1:* (BODY.PEEK[TEXT]<%s.%s>)", "FETCH 1 (BODY[HEADER]<%s.%s>)", "FETCH %s:%s FLAGS", "UID FETCH %s:%s FLAGS",
+			"SEARCH LARGER %s SMALLER %s", "SEARCH UID %s:%s", "SEARCH %s:%s", "STORE %s:%s +FLAGS (\\Seen)", "COPY %s:%s Work", "UID EXPUNGE %s:%s", "APPEND INBOX {%s}", "FETCH 1 (BODY.PEEK[%s.%s])",
+		}
+		f := forms[rng.Intn(len(forms))]
+		line := tag + " " + fmt.Sprintf(f, n1, n2)
+
+		if strings.Contains(f, "{%s}") {
+			line = tag + " " + fmt.Sprintf(f, n1)
+
+			return c11Item{family: "edge-number literal", tag: tag, data: []byte(line + "\r\n"), lines: 0, cutAt: len(line) + 2}
+		}
+
+		return c11Item{family: "edge-number " + strings.Fields(f)[0], tag: tag, data: []byte(line + "\r\n"), lines: 1}
+	case k < 70: // more lines behind a LOGOUT (or behind the 20th error), then gone
+		var b bytes.Buffer
+
+		if rng.Intn(2) == 0 {
+			b.WriteString(tag + " LOGOUT\r\n")
+		} else {
+			for i := 0; i < 21; i++ {
+				fmt.Fprintf(&b, "%sq%d BOGUS\r\n", tag, i)
+			}
+		}
+
+		for i := 0; i < 1+rng.Intn(5); i++ {
+			fmt.Fprintf(&b, "%sz%d NOOP\r\n", tag, i)
+		}
+
+		return c11Item{family: "lines-after-the-end", tag: tag, data: b.Bytes(), lines: 0, cutAt: b.Len()}
 	case k < 80: // an extreme
 		i := rng.Intn(len(c11Extremes))
 		s := c11Extremes[i](tag)
@@ -710,7 +745,23 @@ func (c *c11Case) hostileConn(idx int) {
 		state = "logged-in"
 
 		if rng.Intn(2) == 0 {
-			if !plain([]string{"SELECT INBOX", "EXAMINE INBOX", "SELECT Work"}[rng.Intn(3)]) {
+			// earlier hostile commands may have expunged everything: there should be something to FETCH
+			mk := c.nextTag()
+			lit := simpleMessage("c11-"+mk, rng)
+			_, _ = nc.Write([]byte(fmt.Sprintf("%s APPEND INBOX {%d+}\r\n%s\r\n", mk, len(lit), lit)))
+
+			for {
+				line, err := h.readLine(c11Watchdog)
+				if err != nil {
+					return
+				}
+
+				if strings.HasPrefix(line, mk+" ") {
+					break
+				}
+			}
+
+			if !plain([]string{"SELECT INBOX", "EXAMINE INBOX", "SELECT INBOX"}[rng.Intn(3)]) {
 				return
 			}
 
